@@ -3,12 +3,45 @@ CONFIG = {
     "driver": "c13_driver.ml",
     "model_module": "c13_model",
     "level": "proof",
-    "level_text": "Coq theorems (no axioms) about executable models of the CFF codecs: INDEX round trip with minimal offSize, DICT integer operands (all int32, size classes), DICT real nibble layout vs exact decimal value, charset / encoding / FDSelect round trips with their format selection, totality of every reader, termination and consistency of the offset fixed-point loop of Font.Write, width recovery on the 16.16 grid.",
-    "level_note": "Trusted: Coq kernel, extraction (ExtrOcamlBasic), the translator for the DICT integer encoder and offsSize, the Go harness and its oracles; the Go code is modelled (C13/Model*.v), not verified.",
+    "level_text": (
+        "Coq theorems (Qed, no axioms) about executable models of the CFF codecs of cff/: "
+        "index_roundtrip (every INDEX with < 65536 entries and < 2^32-1 data bytes is read back, wherever it is embedded) with "
+        "index_offsize_minimal and index_read_total (never a panic, allocation <= file size + 28*65536); "
+        "dict_int_roundtrip for every int32 with the size classes switching exactly at +-107/+-1131/int16 "
+        "(the encoder is regenerated from cffDict.encode by the translator on every run), dict_ints_roundtrip, dict_decode_total; "
+        "dict_real_value (the nibble layout of encodeFloat for any sign, digit string and decimal-point position is consumed exactly by decodeFloat, "
+        "accepted by ParseFloat's decimal grammar and denotes exactly +-D*10^(l-m)); "
+        "charset_roundtrip (formats 0/1/2 as selected), encoding_roundtrip (formats 0/1 with supplements for multiply-encoded glyphs, under the contiguity rule), "
+        "fdselect_roundtrip (formats 0/3, including the binary search of the returned closure), each reader total; "
+        "predefined_charsets_match_spec; layout_fixpoint_terminates_consistent (the offset loop of Font.Write stops within 4*(#layout operands)+2 rounds, "
+        "without 32-bit overflow, every offset operand equal to the position of its section); width_recovered / width_recovered_repaired on the 16.16 grid, "
+        "with width_recovered_refuted for the code before the repair. "
+        "The models are tied to /repo on every run by the translator (DICT integer encoder, offsSize, predefined charset tables, nStdString) and by running "
+        "the real code through verif hooks and the extracted models on the same generated values, mutated byte strings and whole fonts "
+        "(the layout model reproduces the offsets of every font written)."
+    ),
+    "level_note": (
+        "Trusted: Coq kernel, extraction (ExtrOcamlBasic), the translator kinds of translators/gen/kind_c13.go, the Go harness and its oracles "
+        "(specification-side readers for INDEX, DICT, charset, encoding, FDSelect; structural walk of emitted CFF files; field-by-field comparison of cff.Font across Write/Read). "
+        "The Go code is modelled (C13/Model*.v), not verified. Partial: the digit extraction of encodeFloat (log10/pow10 float code) is not modelled - the harness "
+        "checks it against strconv on decimal inputs (exact) and on arbitrary float64 values (nine significant digits); the assembly of whole fonts "
+        "(string table, Top DICT contents, FontInfo fields, standard/expert encodings by name) is covered by the oracle only; charstring outlines belong to C04/C05."
+    ),
     "trusted_base": [
-        "modelled, not verified: cff/index.go, dict.go (operand codec), charset.go, encoding.go, fdselect.go, the offset loop of write.go; tied by running the real code (through verif hooks) and the extracted model on the same generated values and mutated byte strings",
-        "parser.Parser is replaced by a plain byte view (justified by C17)",
+        "modelled, not verified: cff/index.go (readIndex, cffIndex.encode), cff/dict.go (decodeDict, decodeFloat, layout of encodeFloat after digit extraction), cff/charset.go, cff/encoding.go, cff/fdselect.go, the offset loop of cff/write.go, width coding of t2encode.go/t2decode.go on the 16.16 grid; tied by correspondence on every run",
+        "regenerated from the source on every run (translator): the int32 operand encoder inside (cffDict).encode, offsSize, the three predefined charset tables as SIDs, the number of standard strings",
+        "parser.Parser is replaced by a plain byte view (justified by C17); a read of 0 bytes always succeeds",
+        "encodeEncoding is modelled position by position (first code of each glyph, later codes as supplements, maxGid) instead of by its one-pass map construction; the correspondence check ties the two",
+        "strconv.ParseFloat: accepted grammar over the characters 0-9 . e - and overflow threshold 2^1024-2^970 are specification-side definitions (S_real_parse, S_real_overflow), exercised against the real function by the harness",
+        "not modelled: digit extraction in encodeFloat (math.Log10 / math.Pow10 / math.Round), float64 rounding of ParseFloat, psenc.StandardEncodingRev and expertEnc name tables",
     ],
-    "assumptions": [],
+    "assumptions": [
+        "identifiers handed to encodeCharset fit 16 bits (checked by the repaired code, which otherwise returns an error); glyph names have distinct SIDs; encoding vectors have 256 entries referring to existing glyphs",
+        "FDSelect values are below 256 and below the number of private dictionaries; nGlyphs < 65536",
+        "DICT reals are finite with 1e-300 <= |x| <= 1e300 or 0 (decodeFloat maps smaller values to 0 and clamps larger ones); nine significant digits are kept",
+        "layout: every layout operand refers to an existing section and the largest possible file size fits an int32 (Font.Write keeps offsets in int32)",
+        "widths lie on the 16.16 grid with |width - nominalWidth| < 32768",
+        "private dictionary values inside the ranges the reader keeps: BlueScale in [0,1], StdHW/StdVW in [0,10000]; ItalicAngle in (-180,180)",
+    ],
     "coq_timeout": 1500,
 }
